@@ -341,6 +341,13 @@ func (p *Process) waitForStarted() {
 	}
 }
 
+// isStarted reports whether the process has been released from all of its own dependencies
+func (p *Process) isStarted() bool {
+	p.Lock()
+	defer p.Unlock()
+	return p.started
+}
+
 func (p *Process) waitForCompletion() int {
 	p.Lock()
 	defer p.Unlock()
@@ -510,6 +517,8 @@ func (p *Process) onProcessEnd(state string) {
 	}
 	// a process that ends without printing its ready log line will never become log ready
 	p.readyLogCancelFn(fmt.Errorf("process %s ended", p.getName()))
+	// a process that ends without having started will never start: release process_started waiters
+	p.runCancelFn()
 	p.setState(state)
 	p.updateProcState()
 
